@@ -154,15 +154,37 @@ def s5_effects(F, S):
     return seen
 
 
+def _ub_check_locals(f):
+    """locals that exist only for a compiler-inserted pointer check: defined and used in one block whose terminator is
+    `assert(.., MisalignedPointerDereference | NullPointerDereference)` and mentioned nowhere else in the function"""
+    import json
+    out = set()
+    uses = {}
+    for b in f.mir["blocks"]:
+        txt = json.dumps(b)
+        for m in set(__import__("re").findall(r'"local": (\d+)', txt)):
+            uses.setdefault(int(m), set()).add(b["id"])
+    for b in f.mir["blocks"]:
+        t = b["term"]
+        if t["k"] == "assert" and t["msg"]["kind"] in ("MisalignedPointerDereference", "NullPointerDereference"):
+            for st in b["stmts"]:
+                if st["k"] == "assign" and not st["place"]["proj"] and uses.get(st["place"]["local"]) == {b["id"]}:
+                    out.add((b["id"], st["place"]["local"]))
+    return out
+
+
 def s6_addr(F, S):
     n = 0
     for f in F.fns:
+        ub = _ub_check_locals(f)
         for b in f.blocks:
             for st in b["stmts"]:
                 if st["k"] != "assign" or st["rv"]["k"] != "cast":
                     continue
                 rv = st["rv"]
                 n += 1
+                if (b["id"], st["place"]["local"]) in ub and not st["place"]["proj"]:
+                    continue  # the address only feeds the alignment / null assert the compiler added in debug builds
                 to_int = rv["ty"].get("k") == "prim" and rv["ty"]["s"] not in ("f64", "f32", "bool", "char", "str", "!")
                 from_ptr = rv["from_ty"].startswith(("*", "&", "fn", "unsafe fn", "std::ptr::NonNull", "extern"))
                 if rv["kind"].startswith("PointerExposeProvenance") or (rv["kind"] == "Transmute" and to_int and from_ptr) or rv["kind"] == "PointerWithExposedProvenance":
